@@ -71,37 +71,47 @@ def _operand_choices(ch, c, label, srcs=OP_SRCS, values=True):
     return sel
 
 
-def _tail_choices(ch, opsets=(18,), tier="quick", wrap=True, api=True):
-    """wrapper / opset / API / options / entry / value_info dimensions (all deviations)."""
-    w = ch.choose("wrap", WRAPM) if wrap else WRAPM[0]
+LEAN_WRAPM = [WRAPM[0], WRAPM[1], WRAPM[3], WRAPM[4], WRAPM[9], WRAPM[13]]
+LEAN_OPTS = {"num_iterations": [2, 1], "onnx_shape_inference": [True, False], "inline": [True, False]}
+
+
+def _tail_choices(ch, opsets=(18,), tier="quick", wrap=True, api=True, lean=False):
+    """wrapper / opset / API / options / entry / value_info dimensions (all deviations).
+    lean: the reduced menus used where the deviation bound is 2 (pairs of deviations)."""
+    w = ch.choose("wrap", LEAN_WRAPM if lean else WRAPM) if wrap else WRAPM[0]
     opset = ch.choose("opset", list(opsets))
-    a = ch.choose("api", optrun.APIS) if api else "optimize"
+    a = ch.choose("api", ["optimize", "fold_constants", "rewrite"] if lean else optrun.APIS) if api else "optimize"
     opts = {}
-    for k, menu in optrun.OPT_MENU.items():
+    for k, menu in (LEAN_OPTS if lean else optrun.OPT_MENU).items():
         v = ch.choose("opt." + k, menu)
         if v != menu[0]:
             opts[k] = v
-    entry = ch.choose("entry", ["proto", "ir"])
-    vi = ch.choose("value_info", [False, True])
+    entry = "proto" if lean else ch.choose("entry", ["proto", "ir"])
+    vi = False if lean else ch.choose("value_info", [False, True])
     return dict(wrap=list(w), opset=opset, api=a, opts=opts, entry=entry, vi=vi)
 
 
-def drv_single(ch):
-    cid = ch.all("cfg", [c.id for c in mz.CONFIGS])
-    c = mz.BY_ID[cid]
-    kind = ch.choose("kind", _kinds(c))
-    steps = []
-    xkind = kind
-    if kind == "Q":
-        pid = ch.all("qprod", q_producers())
-        steps.append({"cfg": pid, "ops": [[0, "const"] for _ in mz.BY_ID[pid].pooled]})
-        xkind = "F2"
-    xi = ch.choose("xshape", list(range(len(mz.X_SHAPES[xkind]))))
-    xsrc = ch.choose("xsrc", mz.X_SRCS)
-    steps.append({"cfg": cid, "ops": _operand_choices(ch, c, "op")})
-    it = dict(fam="single", steps=steps, x=[xkind, xi], xsrc=xsrc)
-    it.update(_tail_choices(ch, opsets=c.opsets))
-    return it
+def make_drv_single(lean=False):
+    def drv(ch):
+        cid = ch.all("cfg", [c.id for c in mz.CONFIGS])
+        c = mz.BY_ID[cid]
+        kind = ch.choose("kind", _kinds(c))
+        steps = []
+        xkind = kind
+        if kind == "Q":
+            pid = ch.all("qprod", q_producers())
+            steps.append({"cfg": pid, "ops": [[0, "const"] for _ in mz.BY_ID[pid].pooled]})
+            xkind = "F2"
+        xi = ch.choose("xshape", list(range(len(mz.X_SHAPES[xkind]))))
+        xsrc = ch.choose("xsrc", mz.X_SRCS)
+        steps.append({"cfg": cid, "ops": _operand_choices(ch, c, "op", srcs=["const", "init_in"] if lean else OP_SRCS)})
+        it = dict(fam="single", steps=steps, x=[xkind, xi], xsrc=xsrc)
+        it.update(_tail_choices(ch, opsets=c.opsets, lean=lean))
+        return it
+    return drv
+
+
+drv_single = make_drv_single(False)
 
 
 def _compatible(p, c):
@@ -462,11 +472,12 @@ def plan_c03(tier, with_corpus=True):
         items += _run(drv_tmpl, 0, fam, "tmpl")
         lifts = ["init"]
     else:
-        items += _run(drv_single, 2, fam, "single", max_leaves=None)
+        items += _run(drv_single, 1, fam, "single")
+        items += _run(make_drv_single(lean=True), 2, fam, "single_pairs_of_deviations")
         items += _run(make_drv_pair(pair_list(False), False), 1, fam, "pair")
-        items += _run(make_drv_pair(rulepair_list(True), True, "rulepair"), 2, fam, "rulepair")
+        items += _run(make_drv_pair(rulepair_list(True), True, "rulepair"), 1, fam, "rulepair")
         items += _run(make_drv_shape3(shape3_list(False), True), 1, fam, "shape3")
-        items += _run(drv_tmpl, 2, fam, "tmpl")
+        items += _run(drv_tmpl, 1, fam, "tmpl")
         lifts = ["init", "asis", "const", "init_in"]
     if with_corpus:
         names = corpus_names("node")
@@ -486,7 +497,24 @@ def plan_c03(tier, with_corpus=True):
     stats["exhaustive"] = not stats["capped"]
     stats["dimensions"] = {f"{k}.{d}": n for k, f in fam.items() for d, n in f["dimensions"].items()}
     stats["alphabet"] = mz.coverage_of_live_alphabet()
+    items = apply_debug_filter(items, stats)
     return items, stats
+
+
+def apply_debug_filter(items, stats):
+    """Development aid (off by default): VERIF_FILTER='a|b' keeps only the items whose JSON contains one of the
+    substrings; the evidence then says so (exhaustive: false, debug_filter recorded)."""
+    import json
+    flt = os.environ.get("VERIF_FILTER")
+    if not flt:
+        return items
+    pats = flt.split("|")
+    kept = [it for it in items if any(p in json.dumps(it) for p in pats)]
+    stats["debug_filter"] = flt
+    stats["debug_filter_kept"] = len(kept)
+    stats["exhaustive"] = False
+    stats["capped"] = True
+    return kept
 
 
 # ------------------------------------------------------------------------------------------------
